@@ -16,7 +16,8 @@ CTRL = ''.join(chr(i) for i in range(1, 32))
 ACC = 'éàüñçöåøÉÀÜÑÇÖÅØ\u00df\u03c2\u017f\ufb01\u0130'        # the last five: sharp s, final sigma, long s, the fi ligature, dotted capital I (case mappings that change length or differ from case folding)
 CJK = 'ㅍ日本語中文かな\U00020bb7\U0002a6a5'        # the last two are CJK Extension B ideographs (outside the BMP)
 COMB = '\u0301\u0308\u1112\u1161\u11ab\uf900\u212b\u2126'        # text that is not in normal form C: combining accents, conjoining Hangul jamo, a compatibility ideograph, the Angstrom and Ohm signs
-ALPHA = ASCII + '   ' + CTRL + ACC + CJK + COMB
+ODD = '\x7f\x80\x9f\xa0\xad\u200b\u200e\u2028\u3000\ufeff'        # DEL, C1 controls, no-break space, soft hyphen, zero-width and directional marks, line separator, ideographic space, BOM: not among the codes 0-31
+ALPHA = ASCII + '   ' + CTRL + ACC + CJK + COMB + ODD
 
 text_s = st.one_of(st.text(st.sampled_from(ALPHA), max_size=60), st.text(st.sampled_from(ASCII), max_size=60),
                    st.text(st.sampled_from('ab \t\n'), max_size=12), st.text(st.sampled_from('Ab c\'d-e3f'), max_size=20))
@@ -281,6 +282,10 @@ def check_join(case):
         if any(rest[i] == '' and (i + 1 == len(rest) or rest[i + 1] == '') for i in range(len(rest))) or lead == len(slots):
             return None
         return [',', ';', '\\'][(len(slots) + lead) % 3].join(slots)
+    # an argument mentioned twice is two arguments (the same host list object reaching one call more than once)
+    n0 = names[0]
+    one = ''.join('' if x is None else (x if isinstance(x, str) else str(x)) for x in (flat(args[0]) if isinstance(args[0], list) else [args[0]]))
+    want_text('CONCATENATE(%s,"-",%s)' % (n0, n0), env, one + '-' + one, 'CONCATENATE(a,"-",a) with a = %r' % (args[0],))
     w = written(names, args)
     if w is not None and w != ','.join(names):
         want_text('CONCATENATE(%s)' % w, env, want, 'CONCATENATE of %r with the blanks written as omitted slots' % (args,))
